@@ -5,6 +5,11 @@ PROPS = {"C17": "fault_enumeration"}
 
 
 def run(ctx):
+    import os
+    keep = ["conn.go", "writer.go"]
+    if os.path.exists(os.path.join(os.path.dirname(__file__), "transport.py")):
+        keep.append("transport.go")
+    ctx.vh_keep = keep
     cov = conn.run_part(ctx, "C17")
     n = cov.get("cut_points", 0)
     cov.update({"evaluations": n, "distinct_nontrivial": n,
